@@ -34,7 +34,7 @@ MUTANTS = [
     ('C01', 'supp/scope.py', r"if getattr\(body\[0\], 'decorator_list', None\):", "if type(body[0]) in (FunctionDef, ClassDef) and body[0].decorator_list:", 'C01-R4'),
     ('C01', 'supp/nast.py', r"AssignedName\(name\.id, get_first_body_node_loc\(node\.body\), np\(name\), node\.iter\)", "AssignedName(name.id, np(node.body[0]), np(name), node.iter)", 'C01-R4'),
     ('C03', 'supp/nast.py', r"        for b in node\.bases:\n            self\.visit\(b\)\n", "        self.visit_in_flow(node.bases, self.flow)\n", 'C03-R1'),
-    ('C11', 'supp/scope.py', r"IMPORT_END_DELIMETERS = string\.whitespace \+ '\),\.;#", "IMPORT_END_DELIMETERS = string.whitespace + '),.;", 'C11-R3'),
+    # (dropping '#' from IMPORT_END_DELIMETERS is no mutant any more: since 2e9ce22 the text search positions def / class names only, which a comment cannot follow directly)
     ('C11', 'supp/scope.py', r"self\.declared_at = top\.find_id_loc\(fnode\.name, np\(fnode\)\)", "self.declared_at = top.find_id_loc(' ' + fnode.name, np(fnode), 1, False)", 'C11-R3'),
     ('C12', 'supp/project.py', r"return set\(m for m in modules if IDENTIFIER\.match\(m\)\)", "return modules", 'C12-R2'),
     ('C08', 'supp/name.py', r"                try:\n                    attrs\[k\] = RuntimeName\(k, getattr\(self\.value, k, None\)\)\n                except Exception:\n                    # a property of a live object may raise anything\n                    attrs\[k\] = RuntimeName\(k, None\)\n", "                attrs[k] = RuntimeName(k, getattr(self.value, k, None))\n", 'C08-R1'),
@@ -77,6 +77,10 @@ MUTANTS = [
     ('C01', 'supp/nast.py', r"self\.make_flow\('while-else', \[skipped\]\)", "self.make_flow('while-else', [cur])", 'C01-R5'),
     ('C09', 'supp/module.py', r"        if not exists\(self\.filename\):[^\n]*\n            return True\n\n", "", 'C09-R5'),
     ('C09', 'supp/module.py', r"        if not exists\(self\.filename\):([^\n]*)\n            return True\n", r"        if not exists(self.filename):\1\n            return False\n", 'C09-R5'),
+    # positions of import bindings from the alias nodes (2e9ce22)
+    ('C11', 'supp/nast.py', r"return alias\.end_lineno, alias\.end_col_offset - len\(alias\.asname\)", "return alias.lineno, alias.end_col_offset - len(alias.asname)", 'C11-R3'),
+    ('C11', 'supp/nast.py', r"return alias\.end_lineno, alias\.end_col_offset - len\(alias\.asname\)", "return alias.end_lineno, alias.end_col_offset - len(name) - 1", 'C11-R3'),
+    ('C11', 'supp/nast.py', r"        return alias\.end_lineno, alias\.end_col_offset - len\(alias\.asname\)\n\n    return np\(alias\)", "        return alias.end_lineno, alias.end_col_offset - len(alias.asname)\n\n    return start", 'C11-R3'),
     # parent-first module search (a3ea9c8)
     ('C07', 'supp/project.py', r"        path = self\.get_search_path\(name\)\n", "        path = self.get_path()\n", 'C07-R2'),
     ('C07', 'supp/project.py', r"path = self\.get_search_path\(root \+ '\.'\) if root else self\.get_path\(\)", "path = self.get_path()", 'C07-R1'),
@@ -145,7 +149,7 @@ MUTANTS = [
     ('C11', 'supp/scope.py', r"self\.args\.append\(ArgumentName\(\[ni\], n\.arg, self\.location, np\(n\), self\)\)", "self.args.append(ArgumentName([ni], n.arg, self.location, np(node), self))", 'C11-R1'),
     ('C11', 'supp/nast.py', r"self\.flow\.add_name\(AssignedName\(name\.id, eend, np\(name\), node\.value\)\)\n\n\nextract", "self.flow.add_name(AssignedName(name.id, eend, eend, node.value))\n\n\nextract", 'C11-R1'),
 
-    ('C11', 'supp/nast.py', r"declared_at = self\.top\.find_id_loc\(name, start\)\n            self\.flow\.add_name\(ImportedName\(name, loc, declared_at, iname, None,", "declared_at = start\n            self.flow.add_name(ImportedName(name, loc, declared_at, iname, None,", 'C11-R3'),
+    ('C11', 'supp/nast.py', r"declared_at = alias_loc\(self\.top, a, name, start\)\n            self\.flow\.add_name\(ImportedName\(name, loc, declared_at, iname, None,", "declared_at = start\n            self.flow.add_name(ImportedName(name, loc, declared_at, iname, None,", 'C11-R3'),
     # ---- C12
     ('C12', 'supp/assistant.py', r"proposals = set\(unmark\(n\) if marked\(n\) else n for n in names\)", "proposals = set(names)", 'C12-R3'),
     ('C12', 'supp/assistant.py', r"    proposals\.discard\(''\)\n", "", 'C12-R2'),
